@@ -132,10 +132,10 @@ def pattern(draw, C, S, allow_pol=False):
             a, b = draw(st.sampled_from([2.0, -1.0, 0.5, 3.0])), draw(st.sampled_from([2.0, -3.0, 0.25]))
             return [{'tok': ['brow_h', a, cont]}, {'tok': ['bcol_h', b, cont]}], name
         ndiag = draw(st.integers(0, 2))
-        items = [{'tok': ['brow', [_inert(draw, C, S) for _ in range(k)], cont]}]
+        items = [{'tok': ['brow', [[['A', _inert(draw, C, S)]] for _ in range(k)], cont]}]
         for _ in range(ndiag):
-            items.append({'tok': ['bdiag', [_inert(draw, C, S) for _ in range(k)], cont]})
-        items.append({'tok': ['bcol', [_inert(draw, C, S) for _ in range(k)], cont]})
+            items.append({'tok': ['bdiag', [[['A', _inert(draw, C, S)]] for _ in range(k)], cont]})
+        items.append({'tok': ['bcol', [[['A', _inert(draw, C, S)]] for _ in range(k)], cont]})
         return items, name
     if name == 'rotrot':
         n = draw(st.integers(2, 3))
@@ -286,8 +286,29 @@ def chain_case(draw, tier, mode):
         # a block run that ends in the container space can only stand at the output end
         k = draw(st.integers(1, 3))
         cont = draw(st.sampled_from(['list', 'tuple', 'dict']))
-        run = [{'tok': ['bdiag', [_inert(draw, C, S) for _ in range(k)], cont]} for _ in range(draw(st.integers(1, 2)))]
-        run.append({'tok': ['bcol', [_inert(draw, C, S) for _ in range(k)], cont]})
+        form = draw(st.sampled_from(['inert', 'inert', 'inverse_blocks', 'inverse_blocks', 'mixed']))
+        if form == 'inert':
+            run = [{'tok': ['bdiag', [[['A', _inert(draw, C, S)]] for _ in range(k)], cont]} for _ in range(draw(st.integers(1, 2)))]
+        else:
+            # two block diagonals whose blocks are mutually inverse pairs: their product is a block diagonal of
+            # identities, i.e. the identity (documented in BlockDiagonalOperator.reduce)
+            left, right = [], []
+            for b in range(k):
+                if form == 'mixed' and b == 0:
+                    left.append([['A', _inert(draw, C, S)]])
+                    right.append([['A', _inert(draw, C, S)]])
+                    continue
+                i = _inert(draw, C, S)
+                pair = [[['Ainv', i]], [['A', i]]]
+                if draw(st.booleans()):
+                    pair.reverse()
+                left.append(pair[0])
+                right.append(pair[1])
+            run = [{'tok': ['bdiag', left, cont]}, {'tok': ['bdiag', right, cont]}]
+            if draw(st.booleans()):
+                run = [{'tok': ['bdiag', [[['A', _inert(draw, C, S)]] for _ in range(k)], cont]}] + run
+            names.append('blocks_inverse_pair')
+        run.append({'tok': ['bcol', [[['A', _inert(draw, C, S)]] for _ in range(k)], cont]})
         items = run + items
         names.append('blocks_left_end')
     return {'S': S, 'defs': C.G.defs, 'items': [it['tok'] for it in items], 'names': names}
@@ -329,7 +350,10 @@ def recipe_of(tok, cur, defs):
     if t in ('PT', 'XT'):
         return {'k': 'T', 'op': ref(tok[1])}
     if t in ('brow', 'bdiag', 'bcol'):
-        return {'k': 'block', 'kind': t[1:], 'blocks': _cont(tok[2], [ref(i) for i in tok[1]])}
+        def entry(e):
+            rs = [recipe_of(x, None, defs) for x in e]
+            return rs[0] if len(rs) == 1 else {'k': 'compose', 'ops': rs, 'via': 'list', 'tree': None}
+        return {'k': 'block', 'kind': t[1:], 'blocks': _cont(tok[2], [entry(e) for e in tok[1]])}
     if t == 'bcol_h':
         return {'k': 'block', 'kind': 'col', 'blocks': _cont(tok[2], [{'k': 'hom', 'in': cur, 'value': tok[1], 'ty': 'py_float'}])}
     if t == 'brow_h':
@@ -451,16 +475,18 @@ def _pair_rule(a, b, defs):
     # blocks with the same layout
     blk = {'brow', 'bdiag', 'bcol'}
     if ta in blk and tb in blk and a[2] == b[2] and len(a[1]) == len(b[1]):
-        inner = [_as_list(x) + _as_list(y) for x, y in zip(a[1], b[1])]
+        inner = [_reduce_entry(list(x) + list(y), defs) for x, y in zip(a[1], b[1])]
         if (ta, tb) == ('brow', 'bdiag'):
             return [['brow', inner, a[2]]]
         if (ta, tb) == ('bdiag', 'bcol'):
             return [['bcol', inner, a[2]]]
         if (ta, tb) == ('bdiag', 'bdiag'):
+            if all(len(e) == 0 for e in inner):
+                return []  # BlockDiagonal([I, I, ...]) -> I, and identity factors are removed
             return [['bdiag', inner, a[2]]]
         if (ta, tb) == ('brow', 'bcol'):
             if len(inner) == 1:
-                return [['seq', inner[0]]]  # a one-term sum reduces to its term
+                return [['seq', inner[0]]] if inner[0] else []  # a one-term sum reduces to its term
             return [['sum', inner]]
     if ta == 'brow_h' and tb == 'bcol_h' and a[2] == b[2]:
         return [['hom', a[1] * b[1]]]
@@ -469,6 +495,21 @@ def _pair_rule(a, b, defs):
 
 def _as_list(x):
     return list(x) if isinstance(x, list) else [x]
+
+
+def _reduce_entry(entry, defs):
+    """Documented pair rules applied to the token list of one block, to a fixpoint."""
+    entry = [list(t) for t in entry if t[0] != 'id']
+    changed = True
+    while changed:
+        changed = False
+        for i in range(len(entry) - 1):
+            new = _pair_rule(entry[i], entry[i + 1], defs)
+            if new is not None:
+                entry[i : i + 2] = new
+                changed = True
+                break
+    return entry
 
 
 # =============================================================================================
@@ -546,8 +587,6 @@ def _inner(op, rev, defs):
     t = tokenize(op, rev, defs)
     if t[0] == 'seq':
         return t[1]
-    if t[0] == 'A':
-        return [t[1]]
     return [t]
 
 
@@ -573,11 +612,11 @@ def canon_seq(toks, defs):
         elif k == 'covv':
             out.append(('COV', tuple(np.asarray(t[1], dtype=float).reshape(-1).tolist())))
         elif k == 'seq':
-            out.extend(('A', i) if isinstance(i, int) else tuple(_tup(i)) for i in t[1])
+            out.extend(canon_seq(t[1], defs))
         elif k in ('brow', 'bdiag', 'bcol'):
-            out.append((k, tuple(tuple(_tup(_as_list(b))) for b in t[1]), t[2]))
+            out.append((k, tuple(tuple(c_ for c_ in canon_seq(b, defs) if c_ != ('id',)) for b in t[1]), t[2]))
         elif k == 'sum':
-            out.append((k, tuple(tuple(_tup(_as_list(b))) for b in t[1])))
+            out.append((k, tuple(tuple(c_ for c_ in canon_seq(b, defs) if c_ != ('id',)) for b in t[1])))
         elif k == 'hom':
             out.append(('hom', round(float(t[1]), 5)))
         else:
